@@ -501,6 +501,135 @@ func reshapeRound(pkgs []*packages.Package, overlay map[string][]byte) (map[stri
 		log = append(log, fmt.Sprintf("method restored: %s is %s turned into a function", cands[0].key, mk))
 	}
 
+	// (a') functions that became methods: a function of the inventory has
+	// disappeared while a method of the same name has appeared in its package whose
+	// receiver type is the type of one of the function's parameters and whose
+	// parameters are the others, in order
+	var missingFuncs []string
+	for k := range anchorSigs {
+		if _, ok := present[k]; !ok && !strings.Contains(k, ".(") && !strings.Contains(k, ":") && strings.HasPrefix(anchorSigs[k], "func(") {
+			missingFuncs = append(missingFuncs, k)
+		}
+	}
+	sort.Strings(missingFuncs)
+	for _, fk := range missingFuncs {
+		pkgPath := fk[:strings.LastIndex(fk, ".")]
+		fname := fk[strings.LastIndex(fk, ".")+1:]
+		want := anchorSigs[fk]
+		i := strings.Index(want, ") (")
+		if i < 0 {
+			continue
+		}
+		wantParams := splitTop(want[len("func("):i])
+		wantRest := want[i:]
+		var cand *renameObj
+		pos := -1
+		for idx := range inv {
+			o := inv[idx]
+			if o.kind != "method" || !strings.HasPrefix(o.key, pkgPath+".(") || !strings.HasSuffix(o.key, ")."+fname) {
+				continue
+			}
+			if _, known := anchorSigs[o.key]; known {
+				continue
+			}
+			j := strings.Index(o.sig, ") (")
+			if j < 0 || o.sig[j:] != wantRest {
+				continue
+			}
+			var have []string
+			if ps := o.sig[len("func("):j]; ps != "" {
+				have = splitTop(ps)
+			}
+			if len(have)+1 != len(wantParams) {
+				continue
+			}
+			tname := o.key[strings.Index(o.key, ".(")+2 : strings.Index(o.key, ").")]
+			names := strings.Split(strings.SplitN(anchorSigs["names:"+fk], "|", 2)[0], ",")
+			sigRecv := o.obj.Type().(*types.Signature).Recv()
+			for k := range wantParams {
+				if wantParams[k] != pkgPath+"."+tname && wantParams[k] != "*"+pkgPath+"."+tname {
+					continue
+				}
+				rest := append(append([]string{}, wantParams[:k]...), wantParams[k+1:]...)
+				if strings.Join(rest, ", ") != strings.Join(have, ", ") {
+					continue
+				}
+				// prefer the position whose old parameter name is the receiver's name
+				if pos < 0 || (k < len(names) && sigRecv != nil && names[k] == sigRecv.Name()) {
+					cand, pos = &inv[idx], k
+				}
+			}
+		}
+		if cand == nil {
+			continue
+		}
+		pkg, _, fd := declOf(cand.obj)
+		if fd == nil || fd.Recv == nil || len(fd.Recv.List) != 1 || len(fd.Recv.List[0].Names) != 1 || fd.Type.TypeParams != nil {
+			continue
+		}
+		rs := refsOf(cand.obj)
+		okAll := true
+		for _, r := range rs {
+			sel, isSel := r.fexpr.(*ast.SelectorExpr)
+			if r.call == nil || !isSel || r.call.Ellipsis.IsValid() {
+				okAll = false
+				continue
+			}
+			if si := r.pkg.TypesInfo.Selections[sel]; si == nil || len(si.Index()) != 1 {
+				okAll = false
+			}
+		}
+		if !okAll {
+			continue
+		}
+		recvField := fd.Recv.List[0]
+		recvDecl := recvField.Names[0].Name + " " + text(pkg, recvField.Type)
+		// declaration: func (r T) f(a, b) -> func f(a, r T, b)
+		var params []string
+		if fd.Type.Params != nil {
+			for _, fl := range fd.Type.Params.List {
+				if len(fl.Names) == 0 {
+					params = append(params, text(pkg, fl.Type))
+					continue
+				}
+				for _, nm := range fl.Names {
+					params = append(params, nm.Name+" "+text(pkg, fl.Type))
+				}
+			}
+		}
+		if pos > len(params) {
+			continue
+		}
+		params = append(params[:pos], append([]string{recvDecl}, params[pos:]...)...)
+		fn := fileName(pkg, fd)
+		edits[fn] = append(edits[fn], srcEdit{off(pkg, fd.Pos()), off(pkg, fd.Type.Params.Closing) + 1, "func " + fname + "(" + strings.Join(params, ", ") + ")"})
+		_, wantPtr := cand.obj.Type().(*types.Signature).Recv().Type().Underlying().(*types.Pointer)
+		for _, r := range rs {
+			sel := r.fexpr.(*ast.SelectorExpr)
+			recv := text(r.pkg, sel.X)
+			if t := r.pkg.TypesInfo.TypeOf(sel.X); t != nil {
+				_, havePtr := t.Underlying().(*types.Pointer)
+				if wantPtr && !havePtr {
+					recv = "&" + recv
+				} else if !wantPtr && havePtr {
+					recv = "*" + recv
+				}
+			}
+			var args []string
+			for _, a := range r.call.Args {
+				args = append(args, text(r.pkg, a))
+			}
+			if pos > len(args) {
+				okAll = false
+				break
+			}
+			args = append(args[:pos], append([]string{recv}, args[pos:]...)...)
+			f2 := fileName(r.pkg, r.call)
+			edits[f2] = append(edits[f2], srcEdit{off(r.pkg, r.call.Pos()), off(r.pkg, r.call.End()), fname + "(" + strings.Join(args, ", ") + ")"})
+		}
+		log = append(log, fmt.Sprintf("function restored: %s is %s turned into a method", cand.key, fk))
+	}
+
 	// (b) permuted parameters / results of a function that kept its name
 	for _, o := range inv {
 		if o.kind != "func" && o.kind != "method" {
